@@ -354,7 +354,7 @@ def run(ctx):
                             % (spec.name, cores, pol, v[1]))
                     continue
                 devs = [{i: alt} for i, (cur, en, dflt, desc) in enumerate(r["points"]) for alt in en if alt != dflt]
-                cap = 4000 if ctx.thorough else {"low": 400, "rr": 300}.get(pol[0], 100)
+                cap = 2000 if ctx.thorough else {"low": 400, "rr": 300}.get(pol[0], 100)
                 if len(devs) > cap:
                     # keep an even spread over the whole execution
                     step = len(devs) / float(cap)
